@@ -642,7 +642,7 @@ def catalogue_cases(behs, tier, rng, rep):
     chosen = [rng.choice(v) for _, v in sorted(by_sit.items())]
     rest = [b for b in meshes if all(b is not c for c in chosen)]
     rng.shuffle(rest)
-    budget = 90 if tier == "quick" else 1500
+    budget = 200 if tier == "quick" else 1500
     if len(chosen) > budget:
         rng.shuffle(chosen)
     chosen = (chosen + rest)[:max(budget, 0)]
@@ -694,7 +694,7 @@ def generated_cases(tier, rng):
             elev = [e for e in elev if e[0] <= 3][:1]
         cases.append(dict(scenario="structured", nx=nx, ny=ny, xe=xe, ye=ye, elev=elev))
     # -- Delaunay meshes (with and without a hole), random cyclic rotation of every element
-    nd = 10 if quick else 120
+    nd = 18 if quick else 120
     for k in range(nd):
         n = [6, 7, 8, 9, 10, 12][k % 6] if quick else rng.choice([5, 6, 7, 8, 9, 10, 12, 14, 16])
         coords, conns = delaunay_mesh(n, rng, hole=(k % 3 == 2))
@@ -717,7 +717,7 @@ def generated_cases(tier, rng):
                           elev=[list(ALL_ELEV[(2 * k + 5) % 8])], hole=True))
     # -- merging: disjoint and clashing names, absent sets, empty side sets
     modes = ["disjoint", "clash_all", "clash_blocks", "clash_nodesets", "clash_sidesets", "noneB", "noneA", "disjoint"]
-    nm = 8 if quick else 64
+    nm = 16 if quick else 64
     for k in range(nm):
         mode = modes[k % len(modes)]
         def pick():
@@ -746,7 +746,7 @@ def generated_cases(tier, rng):
             post_elev = [[2 + (k // 2) % 2, bool((k // 4) % 2), opt]]
         cases.append(dict(scenario="merge", mode=mode, A=A, B=B, edges=True, elev=post_elev))
     # -- files: Exodus tri3 / tri6 written with netCDF4, JSON; several blocks, named / unnamed sets
-    nf = 9 if quick else 72
+    nf = 18 if quick else 72
     for k in range(nf):
         fmt = ["exo3", "exo6", "json"][k % 3]
         r = rng.randrange(3)
@@ -820,10 +820,6 @@ def design_run(rep, tier):
         big = tlc.run("MeshTopologyGen.tla", "MeshTopologyGen_thorough.cfg", label="design-thorough", coverage=False,
                       timeout=2400, env=TLC_ENV)
         if tlc.require_ok(big, rep, "design-thorough"):
-            a2 = {}
-            for a in big.payloads("ACT"):
-                a2[a] = a2.get(a, 0) + 1
-            big.action_counts = a2
             rep.add_tlc(big)
     return behs
 
